@@ -932,12 +932,22 @@ func c05Timeout(e *Env) {
 	lis := newSimListener(e)
 	mux := diam.NewServeMux()
 	var got []*diam.Message
-	mux.HandleFunc("ALL", func(_ diam.Conn, m *diam.Message) {
+	// sometimes the server bounds its writes only: then a peer may pause for as long as it
+	// likes, between messages and inside one, and every handler answers
+	noRT := t.Chance(1, 4)
+	mux.HandleFunc("ALL", func(c diam.Conn, m *diam.Message) {
 		e.mu.Lock()
 		got = append(got, m)
 		e.mu.Unlock()
+		if noRT {
+			m.Answer(2001).WriteTo(c)
+		}
 	})
 	srv := &diam.Server{Handler: mux, Dict: simDict(), ReadTimeout: T}
+	if noRT {
+		srv.ReadTimeout, srv.WriteTimeout = 0, T
+		e.Probe("write-timeout-only")
+	}
 	go srv.Serve(lis)
 	lis.Connect(sc)
 	e.Quiesce()
@@ -964,7 +974,7 @@ func c05Timeout(e *Env) {
 			e.Act("stall", "%v", wait)
 		}
 		now := time.Since(start)
-		if now-readStart >= T {
+		if !noRT && now-readStart >= T {
 			timedOut = true
 			e.Probe("read-deadline-passed")
 			break
@@ -1016,7 +1026,7 @@ func c05Timeout(e *Env) {
 	} else if g != completed && !e.Failed() {
 		e.Fail("C05/conn-dispatch-count/timeout", "%d messages complete, %d dispatched, no deadline passed", completed, g)
 	} else if sc.Closed() && !e.Failed() {
-		e.Fail("C05/closed-without-timeout", "the connection was closed although every read finished within ReadTimeout %v", T)
+		e.Fail("C05/closed-without-timeout", "the connection was closed although every read finished within ReadTimeout %v (write-timeout only: %v)", T, noRT)
 	}
 	sc.EndRead(io.EOF, false)
 	lis.Close()
